@@ -24,7 +24,7 @@ func exportedName(n string) bool { return n != "" && n[0] >= 'A' && n[0] <= 'Z' 
 
 // buildSpec lists what the run-time driver of a case registers.
 func buildSpec(a *analysed, randText string) gorun.Spec {
-	s := gorun.Spec{Case: a.Case.ID, PkgName: a.Case.Main.Name, Unions: map[string][]string{}, Rand: map[string]string{}, Imports: map[string]string{}}
+	s := gorun.Spec{Case: a.Case.ID, PkgName: a.Case.Main.Name, Unions: map[string][]string{}, Rand: map[string]string{}, Imports: map[string]string{}, Enums: map[string][]string{}}
 	for k, v := range a.Case.Main.Imports {
 		s.Imports[k] = v
 	}
@@ -59,6 +59,30 @@ func buildSpec(a *analysed, randText string) gorun.Spec {
 		fn := "rand" + d.Name
 		if randText != "" && regexp.MustCompile(`func `+regexp.QuoteMeta(fn)+`\(\)`).MatchString(randText) {
 			s.Rand[d.Name] = fn
+		}
+	}
+	for _, d := range a.Env.Decls {
+		if d.Kind != "enum" || strings.HasSuffix(d.Q, "#2") {
+			continue
+		}
+		e := expr(d)
+		if e == "" {
+			continue
+		}
+		local := d.PkgPath == a.Env.PkgPath
+		var cs []string
+		for _, m := range d.Members {
+			if m.Name == "_" {
+				continue
+			}
+			if local {
+				cs = append(cs, m.Name)
+			} else if m.Exported {
+				cs = append(cs, importName[d.PkgPath]+"."+m.Name)
+			}
+		}
+		if len(cs) > 0 {
+			s.Enums[e] = cs
 		}
 	}
 	for _, d := range a.Env.Decls {
